@@ -166,6 +166,17 @@ def seeds() -> dict[str, list[bytes]]:
                                  "fffffffffd4804021000000000000000000000000000000001f1f2")],
         "NetworkAddressV2": [bytes.fromhex("61bc6649000210000000000000000000000000000000010000")],
     }
+    # witnesses whose every item is empty (what an anyone-can-spend or an OP_NOT puzzle is fed): a witness all the same, written by hand so that
+    # no serializer of the library decides what the bytes are
+    def _empty_item_tx(stacks: list[bytes]) -> bytes:
+        ins = b"".join(h32 + bytes([j, 0, 0, 0]) + b"\x00" + b"\xfd\xff\xff\xff" for j in range(len(stacks)))
+        return b"\x02\x00\x00\x00" + b"\x00\x01" + bytes([len(stacks)]) + ins + b"\x01" + (1000).to_bytes(8, "little") + b"\x01\x51" + b"".join(stacks) + bytes(4)
+
+    empties = [_empty_item_tx([b"\x01\x00"]), _empty_item_tx([b"\x02\x00\x00", b"\x00"]), _empty_item_tx([b"\x00", b"\x01\x00", b"\x00"])]
+    s["Tx"] += empties
+    s["TxPayload"] += empties[:1]
+    s["Witness"] += [b"\x01\x00", b"\x03\x00\x00\x00"]
+    s["BlockTxn"] += [h32 + b"\x01" + empties[1]]
     sig = dsa.sign_(bytes(32), 1)
     # (small scalars too: a one-byte r or s is where a padding rule is off by one)
     s["dsa.Sig"] = [sig.serialize(), dsa.Sig(1, 1).serialize(), dsa.Sig(0x7F, 0x80).serialize(), dsa.Sig(0x81, 0xFFFF).serialize(), dsa.Sig(0x1234, 5).serialize(), dsa.Sig(0x8001, 0x7FFF).serialize()]
